@@ -207,6 +207,35 @@ func scriptedScenarios() []scenario {
 			}
 			return tag + " OK done\r\n"
 		}},
+		{name: "scripted-pipelined-behind-logout", run: func(x *ctx) {
+			// LOGOUT succeeds and the server closes the connection without
+			// answering the commands the caller had queued behind it
+			login(x)
+			lo := x.c.Logout()
+			r0 := x.issue("LOGOUT")
+			n := x.c.Noop()
+			r1 := x.issue("NOOP")
+			st := x.c.Status("INBOX", &imap.StatusOptions{NumMessages: true})
+			r2 := x.issue("STATUS")
+			f := x.c.Fetch(imap.SeqSetNum(1), &imap.FetchOptions{Flags: true})
+			r3 := x.issue("FETCH")
+			x.wait(r0, "Logout.Wait", lo.Wait)
+			x.wait(r1, "Noop.Wait", n.Wait)
+			x.wait(r2, "Status.Wait", func() error { _, err := st.Wait(); return err })
+			x.wait(r3, "Fetch.Collect", func() error { _, err := f.Collect(); return err })
+			// and a command issued after the connection is gone
+			n2 := x.c.Noop()
+			r4 := x.issue("NOOP")
+			x.wait(r4, "Noop.Wait", n2.Wait)
+		}, peer: func(tag, name, line string) string {
+			switch name {
+			case "SELECT":
+				return selectResp(tag)
+			case "LOGOUT":
+				return "* BYE logging out\r\n" + tag + " OK LOGOUT completed\r\n"
+			}
+			return tag + " OK done\r\n"
+		}},
 		{name: "scripted-odd-but-valid-responses", run: func(x *ctx) {
 			login(x)
 			l := x.c.List("", "*", &imap.ListOptions{ReturnStatus: &imap.StatusOptions{NumMessages: true}})
